@@ -1,7 +1,7 @@
 package main
 
 // Family tp (C16): the real tp.TP with a tp.MemoryStore behind a wrapping tp.Store, driven
-// in-process through httptest by random histories over 1-4 concurrent flows.
+// in-process through httptest by random histories over 1-4 concurrent flows (thorough tier: up to 8 flows, 60 actions).
 //
 //   (tp.run ACT …)     every handler runs to completion before the next starts
 //   (tp.sched ITEM …)  handlers run as goroutines; the wrapping store parks every store operation
@@ -17,19 +17,36 @@ package main
 // action names the service it is addressed to.  A quarter of the polls / user visits / decisions on
 // a flow go to the service that did NOT start it (pending and decided flows alike), init also gets
 // valid tickets of the other service, and in tp.run episodes a third of the requests are realised
-// on the other tp.TP with its Key replaced for the call ("key rotated between approval and
+// on the other tp.TP with its Key and Location replaced for the call ("key rotated between approval and
 // collection").  Pool token ids are 2*i+svc: the parity is the model's `sealer`.
+//
+// What varies per episode and is invisible to the model (the model must predict the same line whatever they are):
+// the two Locations (trailing slash, upper-case host, port, a path with a `poll` segment, both services under ONE
+// location string), the user-URL prefix of the store's PrefixMunger, whether a pool token
+// carries a third-party caveat of BOTH services ("dual": a discharge must satisfy exactly the caveat of its own
+// ticket; the harness supplies a discharge of its own making for the other one), caveats embedded in the tickets
+// (the application must get exactly them from CaveatsFromRequest: `!cavs` otherwise), the JSON shape of the init
+// body, how a secret is spelled in a URL (extra path segments, trailing slash, percent-encoding, query), the Go
+// caveat kind behind a caveat id, whether caveat objects are shared between calls, application message texts.
+//
+//   (const e2e:…)      the real tp.Client against the two services over an in-process RoundTripper: the name of
+//                      the constant is what the scripted applications entitle the client to; model-independent
 
 import (
 	"bytes"
 	"context"
 	"encoding/hex"
 	"encoding/json"
+	"errors"
 	"fmt"
+	"io"
 	"net/http"
+	"net/http/cookiejar"
 	"net/http/httptest"
+	"net/url"
 	"sort"
 	"strings"
+	"sync"
 	"time"
 
 	"github.com/superfly/macaroon"
@@ -43,45 +60,60 @@ import (
 func init() { families["tp"] = famTP }
 
 const (
-	tpLoc     = "https://tp.example"           // service 0
-	tpLocB    = "https://tp-b.example/auth/v1" // service 1: own key, own location (WITH a path, which tp/README allows), SAME store
-	tpFirst   = "https://first-party.example"
-	tpCavEnd  = int64(1) << 40
-	tpUserPfx = "/user/"
+	tpFirst  = "https://first-party.example"
+	tpCavEnd = int64(1) << 40
+	tpNCav   = 8 // caveat ids 1..tpNCav are caveats Macaroon.Add accepts
 )
+
+// locations of service 0 / service 1 (own key, own location, SAME store); tp/README allows a path in a location,
+// tp.url and the client's initURL have a branch of their own for a trailing slash
+var tpLocPool = [2][]string{
+	{"https://tp.example", "https://tp.example", "https://tp.example/", "https://TP.Example", "http://tp.example:8080", "https://tp.example/%7Etp"},
+	{"https://tp-b.example/auth/v1", "https://tp-b.example/auth/v1", "https://tp-b.example/auth/v1/", "https://tp-b.example/a/poll/b", "https://TP-B.example:8443/Auth"},
+}
+
+// prefixes of the PrefixMunger: the user page is the application's own URL
+var tpUserPfxPool = []string{"/user/", "/user/", "/u/", "/app/login/user/", "/user/id=", "/.well-known/macfly/3p/user/"}
 
 type tpThreadKey struct{}
 
 type tpTok struct {
-	id     int // 2*i + svc: the model's ticket atom; its parity names the service whose key seals it
-	svc    int
-	m      *macaroon.Macaroon
-	key    macaroon.SigningKey
-	ticket []byte
+	id      int // 2*i + svc: the model's ticket atom; its parity names the service whose key seals it
+	svc     int
+	m       *macaroon.Macaroon
+	key     macaroon.SigningKey
+	ticket  []byte
+	tcavs   []byte   // msgpack of the caveats the first party embedded in the ticket
+	helpers [][]byte // dual tokens: discharges (made by the harness) of the token's OTHER third-party caveats
 }
 
 type tpFlow struct {
 	n                  int // 1-based order of Insert
 	svc                int // the service whose init inserted it
+	tid                int // pool token id of the ticket that started it
 	us, ps             string
 	pollLive, userLive bool
 }
 
 type tpAct struct {
-	kind     string // init poll uservisit approve abort
-	svc      int    // the tp.TP the request is addressed to
-	viaSwap  bool   // realised on the OTHER instance with its Key replaced by this service's key for the call
-	good     bool
-	tid      int    // pool token id (good) or bad-ticket kind
-	raw      []byte // ticket bytes
-	badJSON  bool
-	noMember bool   // a JSON body without a ticket member: the same as an empty ticket
-	mode     string // immediate poll user refuse none
-	cs       []int
-	status   int
-	msg      int
-	role     string // approve/abort: poll|user
-	secret   string
+	kind    string // init poll uservisit approve abort
+	svc     int    // the tp.TP the request is addressed to
+	viaSwap bool   // realised on the OTHER instance with its Key and Location replaced by this service's for the call
+	good    bool
+	tid     int    // pool token id (good) or bad-ticket kind
+	raw     []byte // ticket bytes
+	body    []byte // init: the request body (a JSON shape of raw, or something unparsable)
+	mode    string // immediate poll user refuse none
+	cs      []int
+	cavs    []macaroon.Caveat // the Go caveats behind cs (fresh or the world's shared objects)
+	nilCavs bool              // an empty list passed as no variadic argument at all
+	status  int
+	msg     int
+	role    string // approve/abort: poll|user
+	secret  string // the secret the handler will extract (what the model is told)
+	tail    string // poll/uservisit: how it is spelled after the URL prefix
+	path    string // uservisit: a whole path that does NOT start with the munger's prefix ("" = prefix + tail)
+	query   string
 }
 
 type tpThread struct {
@@ -98,8 +130,6 @@ type tpThread struct {
 	retSecret  string
 	note       string
 }
-
-var tpLocs = [2]string{tpLoc, tpLocB}
 
 type tpWorld struct {
 	r       *Rng
@@ -118,6 +148,11 @@ type tpWorld struct {
 	planned int             // inits that will insert
 	lastSvc int             // service of the flow genSecret picked last
 	initH   [2]http.Handler // the init middleware is built once per service and reused, as on a real mux
+	locs    [2]string
+	userPfx string
+	dual    bool                    // every pool macaroon carries a third-party caveat of BOTH services
+	cavObjs map[int]macaroon.Caveat // caveat objects shared between calls
+	keys    [2]macaroon.EncryptionKey
 }
 
 // ---- wrapping store -------------------------------------------------------------------------
@@ -150,7 +185,7 @@ func (s *tpWrapStore) Insert(ctx context.Context, sd *tp.StoreData) (string, str
 	if err == nil {
 		fl := &tpFlow{n: len(s.w.flows) + 1, us: us, ps: ps, pollLive: true, userLive: true}
 		if th0, _ := ctx.Value(tpThreadKey{}).(*tpThread); th0 != nil {
-			fl.svc = th0.act.svc
+			fl.svc, fl.tid = th0.act.svc, th0.act.tid
 		}
 		s.w.flows = append(s.w.flows, fl)
 		s.log(th, "ins:%s", s.w.sref(ps))
@@ -214,50 +249,167 @@ func (s *tpWrapStore) UserSecretFromRequest(r *http.Request) (string, error) {
 
 // ---- world ----------------------------------------------------------------------------------
 
-// caveat id k>0: an ordinary, distinguishable caveat; id 0: a caveat Macaroon.Add refuses
-// (an attestation wrapped in IfPresent)
-func tpCav(k int) macaroon.Caveat {
-	if k == 0 {
+// caveat id k in 1..tpNCav: an ordinary, distinguishable caveat Macaroon.Add accepts — of several Go kinds (the
+// discharge of a real deployment carries an attestation and a validity window); id 0: a caveat Macaroon.Add
+// refuses (an attestation wrapped in IfPresent, one or two wrappers deep)
+func tpCav(k, refusedKind int) macaroon.Caveat {
+	switch k {
+	case 0:
 		u := auth.FlyioUserID(7)
-		return &resset.IfPresent{Ifs: macaroon.NewCaveatSet(&u), Else: resset.ActionAll}
+		inner := &resset.IfPresent{Ifs: macaroon.NewCaveatSet(&u), Else: resset.ActionAll}
+		if refusedKind == 1 {
+			return &resset.IfPresent{Ifs: macaroon.NewCaveatSet(inner), Else: resset.ActionRead}
+		}
+		return inner
+	case 5:
+		u := auth.FlyioUserID(5)
+		return &u
+	case 6:
+		return &flyio.Organization{ID: 6, Mask: resset.ActionAll}
+	case 7: // a wrapper without an attestation inside: accepted
+		return &resset.IfPresent{Ifs: macaroon.NewCaveatSet(&macaroon.ValidityWindow{NotBefore: 7, NotAfter: tpCavEnd}), Else: resset.ActionRead}
+	case 8: // differs from id 1 in one field only: not a duplicate
+		return &macaroon.ValidityWindow{NotBefore: 1, NotAfter: tpCavEnd + 1}
 	}
 	return &macaroon.ValidityWindow{NotBefore: int64(k), NotAfter: tpCavEnd}
 }
 
-func tpCavs(ks []int) []macaroon.Caveat {
+func tpCavEnc(c macaroon.Caveat) string {
+	b, err := macaroon.NewCaveatSet(c).MarshalMsgpack()
+	if err != nil {
+		return "unencodable"
+	}
+	return hex.EncodeToString(b)
+}
+
+var tpCavNames map[string]string
+
+// the id of a caveat read back from a discharge; c? = none of the application's
+func tpCavName(c macaroon.Caveat) string {
+	if tpCavNames == nil {
+		tpCavNames = map[string]string{}
+		for k := 1; k <= tpNCav; k++ {
+			tpCavNames[tpCavEnc(tpCav(k, 0))] = fmt.Sprintf("c%d", k)
+		}
+	}
+	if n, ok := tpCavNames[tpCavEnc(c)]; ok {
+		return n
+	}
+	return "c?"
+}
+
+// the Go caveats behind a list of ids: fresh objects, or (a third of the lists) the world's one object per id,
+// so that two approvals / two flows are handed the very same caveat values
+func (w *tpWorld) mkCavs(ks []int) []macaroon.Caveat {
+	shared := w.r.Chance(1, 3)
+	if len(ks) > 0 {
+		w.o.count("cavs.objects." + hitmiss(shared, "shared", "fresh"))
+	}
 	cs := make([]macaroon.Caveat, len(ks))
 	for i, k := range ks {
-		cs[i] = tpCav(k)
+		switch {
+		case k == 0:
+			kind := w.r.Intn(2)
+			w.o.count(fmt.Sprintf("cavs.refused.kind%d", kind))
+			cs[i] = tpCav(0, kind)
+		case shared:
+			if w.cavObjs[k] == nil {
+				w.cavObjs[k] = tpCav(k, 0)
+			}
+			cs[i] = w.cavObjs[k]
+		default:
+			cs[i] = tpCav(k, 0)
+		}
 	}
 	return cs
 }
 
+// the URL a client derives from a location (tp/client.go: initURL)
+func tpInitURL(loc string) string {
+	if strings.HasSuffix(loc, "/") {
+		return loc + tp.InitPath[1:]
+	}
+	return loc + tp.InitPath
+}
+
+func (w *tpWorld) pollBase(v int) string { return tpInitURL(w.locs[v]) + "/poll/" }
+
+func (w *tpWorld) origin(v int) string {
+	u, err := url.Parse(w.locs[v])
+	if err != nil {
+		panic(err)
+	}
+	return u.Scheme + "://" + u.Host
+}
+
+func (w *tpWorld) tokByID(id int) *tpTok {
+	for _, t := range w.toks {
+		if t.id == id {
+			return t
+		}
+	}
+	return nil
+}
+
+type tpMintPart struct {
+	id, svc int
+	ka      macaroon.EncryptionKey
+	loc     string
+}
+
 func newTPWorld(r *Rng, o *Out, size, ntoks int) *tpWorld {
-	w := &tpWorld{r: r, o: o, xs: map[string]int{}}
-	ms, err := tp.NewMemoryStore(tp.PrefixMunger(tpUserPfx), size)
+	w := &tpWorld{r: r, o: o, xs: map[string]int{}, cavObjs: map[int]macaroon.Caveat{}}
+	w.userPfx = pick(r, tpUserPfxPool)
+	o.count("world.user-prefix=" + w.userPfx)
+	for v := range w.locs {
+		w.locs[v] = pick(r, tpLocPool[v])
+	}
+	w.dual = r.Chance(1, 3)
+	o.count("world.dual-tokens=" + fmt.Sprint(w.dual))
+	if !w.dual && r.Chance(1, 8) { // two services (own keys) under one location string
+		w.locs[1] = w.locs[0]
+		o.count("world.one-location")
+	}
+	for v := range w.locs {
+		o.count(fmt.Sprintf("world.loc%d=%s", v, w.locs[v]))
+	}
+	ms, err := tp.NewMemoryStore(tp.PrefixMunger(w.userPfx), size)
 	if err != nil {
 		panic(err)
 	}
 	w.ms = ms
 	ws := &tpWrapStore{w: w, inner: ms}
 	for v := range w.svcs {
-		w.svcs[v] = &tp.TP{Location: tpLocs[v], Key: macaroon.NewEncryptionKey(), Store: ws}
+		w.keys[v] = macaroon.NewEncryptionKey()
+		w.svcs[v] = &tp.TP{Location: w.locs[v], Key: w.keys[v], Store: ws}
 	}
-	mint := func(id, v int, ka macaroon.EncryptionKey) *tpTok {
-		tpLoc := tpLocs[v]
+	// one macaroon with one third-party caveat per part; a pool entry per part
+	mint := func(kid byte, parts []tpMintPart) []*tpTok {
 		k := macaroon.NewSigningKey()
-		m, err := macaroon.New([]byte{byte(id), 7}, tpFirst, k)
+		m, err := macaroon.New([]byte{kid, 7}, tpFirst, k)
 		if err != nil {
 			panic(err)
 		}
-		if err := m.Add(&flyio.Organization{ID: uint64(100 + id), Mask: resset.ActionAll}); err != nil {
+		if err := m.Add(&flyio.Organization{ID: uint64(100 + int(kid)), Mask: resset.ActionAll}); err != nil {
 			panic(err)
 		}
-		if err := m.Add3P(ka, tpLoc); err != nil {
-			panic(err)
+		tcavs := make([][]byte, len(parts))
+		for i, p := range parts {
+			// caveats the first party embeds in the ticket (the service hands them to the application)
+			var tc []macaroon.Caveat
+			for j := r.Intn(3); j > 0; j-- {
+				tc = append(tc, &macaroon.ValidityWindow{NotBefore: int64(1000 + 10*p.id + j), NotAfter: tpCavEnd})
+			}
+			o.count(fmt.Sprintf("ticket-caveats=%d", len(tc)))
+			if tcavs[i], err = macaroon.NewCaveatSet(tc...).MarshalMsgpack(); err != nil {
+				panic(err)
+			}
+			if err := m.Add3P(p.ka, p.loc, tc...); err != nil {
+				panic(err)
+			}
 		}
 		tks, err := m.ThirdPartyTickets()
-		if err != nil || len(tks[tpLoc]) == 0 {
+		if err != nil {
 			panic(fmt.Sprint("no ticket: ", err))
 		}
 		// re-read the token from its wire form, as a verifier would
@@ -272,14 +424,53 @@ func newTPWorld(r *Rng, o *Out, size, ntoks int) *tpWorld {
 		if _, err := dm.Verify(k, nil, nil); err == nil {
 			panic("pool token verifies without a discharge")
 		}
-		return &tpTok{id: id, svc: v, m: dm, key: k, ticket: tks[tpLoc]}
+		toks := make([]*tpTok, len(parts))
+		own := make([][]byte, len(parts))
+		for i, p := range parts {
+			if len(tks[p.loc]) == 0 {
+				panic("no ticket for " + p.loc)
+			}
+			toks[i] = &tpTok{id: p.id, svc: p.svc, m: dm, key: k, ticket: tks[p.loc], tcavs: tcavs[i]}
+			_, d, err := macaroon.DischargeTicket(p.ka, p.loc, tks[p.loc])
+			if err != nil {
+				panic(err)
+			}
+			if own[i], err = d.Encode(); err != nil {
+				panic(err)
+			}
+		}
+		for i := range parts {
+			for j := range parts {
+				if j != i {
+					toks[i].helpers = append(toks[i].helpers, own[j])
+				}
+			}
+		}
+		if len(parts) > 1 {
+			if _, err := dm.Verify(k, own, nil); err != nil {
+				panic("dual pool token does not verify with both discharges")
+			}
+			if _, err := dm.Verify(k, own[:1], nil); err == nil {
+				panic("dual pool token verifies with one discharge")
+			}
+		}
+		return toks
 	}
 	for i := 1; i <= ntoks; i++ {
-		for v := range w.svcs {
-			w.toks = append(w.toks, mint(2*i+v, v, w.svcs[v].Key))
+		p0 := tpMintPart{2 * i, 0, w.keys[0], w.locs[0]}
+		p1 := tpMintPart{2*i + 1, 1, w.keys[1], w.locs[1]}
+		switch {
+		case !w.dual:
+			w.toks = append(w.toks, mint(byte(p0.id), []tpMintPart{p0})...)
+			w.toks = append(w.toks, mint(byte(p1.id), []tpMintPart{p1})...)
+		case r.Bool():
+			w.toks = append(w.toks, mint(byte(p0.id), []tpMintPart{p0, p1})...)
+		default: // the caveat of service 1 first
+			ts := mint(byte(p0.id), []tpMintPart{p1, p0})
+			w.toks = append(w.toks, ts[1], ts[0])
 		}
 	}
-	w.foreign = mint(99, 0, macaroon.NewEncryptionKey()).ticket
+	w.foreign = mint(99, []tpMintPart{{99, 0, macaroon.NewEncryptionKey(), w.locs[0]}})[0].ticket
 	return w
 }
 
@@ -351,44 +542,56 @@ func (w *tpWorld) live() string {
 	return s
 }
 
-// the handlers of service v (inst is its tp.TP, or the other one with v's key swapped in)
-func (w *tpWorld) mux(v int, inst *tp.TP, rw http.ResponseWriter, r *http.Request) {
-	// (a service whose location has a path is mounted there and sees the full, unstripped path)
-	path := strings.TrimPrefix(r.URL.EscapedPath(), "/auth/v1")
-	switch {
-	case path == tp.InitPath:
+// the handlers of service v (inst is its tp.TP, or the other one with v's key and location swapped in); every
+// handler sees the full, unstripped request path (a service whose location has a path is mounted there)
+func (w *tpWorld) mux(v int, inst *tp.TP, kind string, rw http.ResponseWriter, r *http.Request) {
+	switch kind {
+	case "init":
 		if w.initH[v] == nil {
 			w.initH[v] = w.svcs[v].InitRequestMiddleware(http.HandlerFunc(w.handleInit))
 		}
 		w.initH[v].ServeHTTP(rw, r)
-	case strings.HasPrefix(path, tp.PollPathPrefix):
+	case "poll":
 		inst.HandlePollRequest(rw, r)
-	case strings.HasPrefix(path, tpUserPfx):
+	case "uservisit":
 		inst.UserRequestMiddleware(http.HandlerFunc(w.handleUser)).ServeHTTP(rw, r)
 	default:
-		panic("unrouted " + path)
+		panic("unrouted " + kind)
 	}
 }
 
-func tpMsg(m int) string {
-	if m == 0 {
-		return ""
+// application message texts: JSON-special characters, non-ASCII, control characters, a long one
+var tpMsgs = []string{"", "m1", `m2 "q" <&> é☃ \ {"discharge":"x"}`, "m3\x01\n\t" + strings.Repeat("long ", 300)}
+
+func tpMsg(m int) string { return tpMsgs[m] }
+
+// the caveats the middleware hands to the application are exactly those the first party put in the ticket
+func (w *tpWorld) checkFD(th *tpThread, r *http.Request, tid int) {
+	cs, err := tp.CaveatsFromRequest(r)
+	if err != nil {
+		th.note += "!nofd"
+		return
 	}
-	return fmt.Sprintf("m%d", m)
+	enc, err := macaroon.NewCaveatSet(cs...).MarshalMsgpack()
+	if t := w.tokByID(tid); t == nil || err != nil || !bytes.Equal(enc, t.tcavs) {
+		th.note += "!cavs"
+	}
 }
 
 // the application's init handler: follows the script of the request
 func (w *tpWorld) handleInit(rw http.ResponseWriter, r *http.Request) {
 	th := r.Context().Value(tpThreadKey{}).(*tpThread)
 	th.invoked = true
-	if _, err := tp.CaveatsFromRequest(r); err != nil {
-		th.note += "!nofd"
-	}
 	a := th.act
+	w.checkFD(th, r, a.tid)
 	svc := w.svcs[a.svc]
 	switch a.mode {
 	case "immediate":
-		svc.RespondDischarge(rw, r, tpCavs(a.cs)...)
+		if a.nilCavs {
+			svc.RespondDischarge(rw, r)
+		} else {
+			svc.RespondDischarge(rw, r, a.cavs...)
+		}
 	case "poll":
 		th.retSecret = svc.RespondPoll(rw, r)
 	case "user":
@@ -402,37 +605,59 @@ func (w *tpWorld) handleInit(rw http.ResponseWriter, r *http.Request) {
 func (w *tpWorld) handleUser(rw http.ResponseWriter, r *http.Request) {
 	th := r.Context().Value(tpThreadKey{}).(*tpThread)
 	th.invoked = true
-	if _, err := tp.CaveatsFromRequest(r); err != nil {
-		th.note += "!nofd"
+	tid := -1
+	for _, f := range w.flows {
+		if f.us == th.act.secret {
+			tid = f.tid
+		}
 	}
+	w.checkFD(th, r, tid)
 	rw.Write([]byte("page"))
 }
 
-// which pool token the discharge verifies for, and which application caveats it carries
+// which pool token the discharge verifies for, and which caveats it carries (ALL of them, read from the
+// discharge itself: c? is a caveat the application did not choose)
 func (w *tpWorld) dischargeTok(dis string) string {
 	raw, err := macaroon.Parse(dis)
 	if err != nil || len(raw) != 1 {
 		return "discharge:unparsable"
 	}
-	var ids []string
+	return w.dischargeTokRaw(raw[0])
+}
+
+func (w *tpWorld) dischargeTokRaw(raw0 []byte) string {
+	raw := [][]byte{raw0}
+	dm, err := macaroon.Decode(raw0)
+	if err != nil {
+		return "discharge:undecodable"
+	}
 	var cavs []string
+	attested := false
+	for _, c := range dm.UnsafeCaveats.Caveats {
+		cavs = append(cavs, tpCavName(c))
+		attested = attested || macaroon.IsAttestation(c)
+	}
+	var ids []string
+	note := ""
 	for _, t := range w.toks {
-		cs, err := t.m.Verify(t.key, [][]byte{raw[0]}, nil)
-		if err != nil {
+		ds := append([][]byte{raw[0]}, t.helpers...)
+		if _, err := t.m.Verify(t.key, ds, nil); err != nil {
 			continue
 		}
 		ids = append(ids, fmt.Sprintf("t%d", t.id))
-		cavs = cavs[:0]
-		for _, c := range cs.Caveats {
-			if vw, ok := c.(*macaroon.ValidityWindow); ok && vw.NotAfter == tpCavEnd {
-				cavs = append(cavs, fmt.Sprintf("c%d", vw.NotBefore))
-			}
+		if dm.Location != w.locs[t.svc] && !strings.Contains(note, "!loc") {
+			note += "!loc"
+		}
+		// a first party that trusts the service (its location, its key) is given the attestation too
+		cs, err := t.m.Verify(t.key, ds, map[string][]macaroon.EncryptionKey{w.locs[t.svc]: {w.keys[t.svc]}})
+		if err != nil || attested != (len(macaroon.GetCaveats[*auth.FlyioUserID](cs)) > 0) {
+			note += "!trust"
 		}
 	}
 	if len(ids) == 0 {
 		return "discharge:t?:"
 	}
-	return "discharge:" + strings.Join(ids, "+") + ":" + strings.Join(cavs, ",")
+	return "discharge:" + strings.Join(ids, "+") + ":" + strings.Join(cavs, ",") + note
 }
 
 func (w *tpWorld) httpTok(rec *httptest.ResponseRecorder, th *tpThread) string {
@@ -457,14 +682,14 @@ func (w *tpWorld) httpTok(rec *httptest.ResponseRecorder, th *tpThread) string {
 	case jr.Discharge != "":
 		kind = w.dischargeTok(jr.Discharge)
 	case jr.PollURL != "":
-		ps, ok := strings.CutPrefix(jr.PollURL, tpLocs[th.act.svc]+tp.PollPathPrefix)
+		ps, ok := strings.CutPrefix(jr.PollURL, w.pollBase(th.act.svc))
 		kind = "poll:" + w.sref(ps)
 		if !ok || th.retSecret != ps {
 			kind += "!ret"
 		}
 	case jr.UserInteractive != nil:
-		ps, ok1 := strings.CutPrefix(jr.UserInteractive.PollURL, tpLocs[th.act.svc]+tp.PollPathPrefix)
-		us, ok2 := strings.CutPrefix(jr.UserInteractive.UserURL, tpUserPfx)
+		ps, ok1 := strings.CutPrefix(jr.UserInteractive.PollURL, w.pollBase(th.act.svc))
+		us, ok2 := strings.CutPrefix(jr.UserInteractive.UserURL, w.userPfx)
 		kind = "user:" + w.sref(ps) + "," + w.sref(us)
 		if !ok1 || !ok2 || th.retSecret != us {
 			kind += "!ret"
@@ -476,10 +701,11 @@ func (w *tpWorld) httpTok(rec *httptest.ResponseRecorder, th *tpThread) string {
 	case jr.Error == "internal server error":
 		kind = "error"
 	case jr.Error != "":
-		if strings.HasPrefix(jr.Error, "m") {
-			kind = "error:" + jr.Error
-		} else {
-			kind = "error:other"
+		kind = "error:other"
+		for k := 1; k < len(tpMsgs); k++ {
+			if jr.Error == tpMsgs[k] {
+				kind = fmt.Sprintf("error:m%d", k)
+			}
 		}
 	default:
 		kind = "empty"
@@ -494,44 +720,45 @@ func (w *tpWorld) httpTok(rec *httptest.ResponseRecorder, th *tpThread) string {
 func (w *tpWorld) runAct(th *tpThread) string {
 	ctx := context.WithValue(context.Background(), tpThreadKey{}, th)
 	a := th.act
-	svc, tpLoc := w.svcs[a.svc], tpLocs[a.svc]
-	if a.viaSwap { // the other instance, its Key replaced by this service's key for the duration of the call
+	svc := w.svcs[a.svc]
+	if a.viaSwap { // the other instance, its Key and Location replaced by this service's for the duration of the call
 		svc = w.svcs[1-a.svc]
-		old := svc.Key
-		svc.Key = w.svcs[a.svc].Key
-		defer func() { svc.Key = old }()
+		oldK, oldL := svc.Key, svc.Location
+		svc.Key, svc.Location = w.svcs[a.svc].Key, w.svcs[a.svc].Location
+		defer func() { svc.Key, svc.Location = oldK, oldL }()
 	}
 	switch a.kind {
 	case "init":
-		var body []byte
-		if a.badJSON {
-			body = []byte(`{"ticket": 12`)
-		} else if a.noMember {
-			body = []byte(pick(w.r, []string{`{}`, `{"comment": "no ticket here"}`, `{"Ticket2": "AAAA"}`}))
-		} else {
-			body, _ = json.Marshal(map[string][]byte{"ticket": a.raw})
-		}
-		req := httptest.NewRequest("POST", tpLoc+tp.InitPath, bytes.NewReader(body)).WithContext(ctx)
+		req := httptest.NewRequest("POST", tpInitURL(w.locs[a.svc]), bytes.NewReader(a.body)).WithContext(ctx)
 		rec := httptest.NewRecorder()
-		w.mux(a.svc, svc, rec, req)
+		w.mux(a.svc, svc, a.kind, rec, req)
 		return w.httpTok(rec, th)
 	case "poll":
-		req := httptest.NewRequest("GET", tpLoc+tp.PollPathPrefix+a.secret+w.query(), nil).WithContext(ctx)
+		req := httptest.NewRequest("GET", w.pollBase(a.svc)+a.tail+a.query, nil).WithContext(ctx)
 		rec := httptest.NewRecorder()
-		w.mux(a.svc, svc, rec, req)
+		w.mux(a.svc, svc, a.kind, rec, req)
 		return w.httpTok(rec, th)
 	case "uservisit":
 		// (the user page is the application's own URL: it does not live under the service's location path)
-		req := httptest.NewRequest("GET", strings.TrimSuffix(tpLoc, "/auth/v1")+tpUserPfx+a.secret+w.query(), nil).WithContext(ctx)
+		p := w.userPfx + a.tail
+		if a.path != "" {
+			p = a.path
+		}
+		req := httptest.NewRequest("GET", w.origin(a.svc)+p+a.query, nil).WithContext(ctx)
 		rec := httptest.NewRecorder()
-		w.mux(a.svc, svc, rec, req)
+		w.mux(a.svc, svc, a.kind, rec, req)
 		return w.httpTok(rec, th)
 	case "approve":
 		var err error
-		if a.role == "poll" {
-			err = svc.DischargePoll(ctx, a.secret, tpCavs(a.cs)...)
-		} else {
-			err = svc.DischargeUserInteractive(ctx, a.secret, tpCavs(a.cs)...)
+		switch {
+		case a.role == "poll" && a.nilCavs:
+			err = svc.DischargePoll(ctx, a.secret)
+		case a.role == "poll":
+			err = svc.DischargePoll(ctx, a.secret, a.cavs...)
+		case a.nilCavs:
+			err = svc.DischargeUserInteractive(ctx, a.secret)
+		default:
+			err = svc.DischargeUserInteractive(ctx, a.secret, a.cavs...)
 		}
 		return hitmiss(err == nil, "ok", "err")
 	case "abort":
@@ -546,10 +773,10 @@ func (w *tpWorld) runAct(th *tpThread) string {
 	panic("bad action")
 }
 
-// query: the secret is the rest of the PATH; a query string (the return_to parameter the protocol's README lets a
+// query: the secret is part of the PATH; a query string (the return_to parameter the protocol's README lets a
 // client append to the user URL, or any other) is no part of it. The model never sees it.
-func (w *tpWorld) query() string {
-	q := pick(w.r, []string{"", "", "?return_to=https%3A%2F%2Fclient.example%2Fdone", "?", "?x=1&y=/a/b"})
+func (w *tpWorld) genQuery() string {
+	q := pick(w.r, []string{"", "", "?return_to=https%3A%2F%2Fclient.example%2Fdone", "?", "?x=1&y=/a/b", "?/", "?a=b/"})
 	w.o.count("query." + map[bool]string{true: "none", false: "present"}[q == ""])
 	return q
 }
@@ -592,13 +819,34 @@ func (w *tpWorld) sxAct(a *tpAct) string {
 // ---- generators -----------------------------------------------------------------------------
 
 func (w *tpWorld) genCavs() []int {
-	n := w.r.Intn(4)
-	cs := make([]int, n)
-	for i := range cs {
-		cs[i] = 1 + w.r.Intn(4) // duplicates on purpose: Macaroon.Add de-duplicates
+	r := w.r
+	n := r.Intn(4)
+	if r.Chance(1, 10) {
+		n = 4 + r.Intn(6)
+		w.o.count("cavs.long")
 	}
-	if w.r.Chance(1, 6) { // a caveat Add refuses: first, in the middle, or last
-		pos := w.r.Intn(n + 1)
+	cs := make([]int, n)
+	dup := false
+	for i := range cs {
+		switch {
+		case i > 0 && r.Chance(1, 5): // duplicates on purpose: Macaroon.Add de-duplicates
+			cs[i] = cs[r.Intn(i)]
+		case r.Bool():
+			cs[i] = 1 + r.Intn(4)
+		default:
+			cs[i] = 1 + r.Intn(tpNCav)
+		}
+		for _, c := range cs[:i] {
+			dup = dup || c == cs[i]
+		}
+		w.o.count(fmt.Sprintf("cavs.id%d", cs[i]))
+	}
+	if dup {
+		w.o.count("cavs.has-duplicate")
+	}
+	w.o.count(fmt.Sprintf("cavs.len=%d", n))
+	if r.Chance(1, 6) { // a caveat Add refuses: first, in the middle, or last
+		pos := r.Intn(n + 1)
 		cs = append(cs[:pos], append([]int{0}, cs[pos:]...)...)
 		switch {
 		case n == 0:
@@ -616,8 +864,19 @@ func (w *tpWorld) genCavs() []int {
 	return cs
 }
 
-// a secret to present to the namespace `role`
-func (w *tpWorld) genSecret(role string) string {
+// the list an application passes: ids for the model, Go caveats for the library; an empty list is passed as an
+// empty slice or as no variadic argument at all
+func (w *tpWorld) setCavs(a *tpAct) {
+	a.cs = w.genCavs()
+	a.cavs = w.mkCavs(a.cs)
+	if len(a.cs) == 0 && w.r.Bool() {
+		a.nilCavs = true
+		w.o.count("cavs.empty-as-nil")
+	}
+}
+
+// a secret string to present to the namespace `role`
+func (w *tpWorld) genSecretString(role string) string {
 	randHex := func() string { return hex.EncodeToString(w.r.Bytes(16)) }
 	if len(w.flows) == 0 {
 		w.o.count("secret.never-issued")
@@ -631,16 +890,16 @@ func (w *tpWorld) genSecret(role string) string {
 		right, other = f.us, f.ps
 	}
 	switch x := w.r.Intn(100); {
-	case x < 68:
+	case x < 62:
 		w.o.count("secret.right")
 		return right
-	case x < 82:
+	case x < 75:
 		w.o.count("secret.swapped")
 		return other
-	case x < 90:
+	case x < 82:
 		w.o.count("secret.never-issued")
 		return randHex()
-	case x < 97:
+	case x < 88:
 		w.o.count("secret.wrong")
 		b := []byte(right)
 		i := w.r.Intn(len(b))
@@ -650,10 +909,128 @@ func (w *tpWorld) genSecret(role string) string {
 			b[i] = '0'
 		}
 		return string(b)
+	case x < 97: // strings derived from the right secret that are NOT it
+		d := blake2b.Sum256([]byte(right))
+		k := w.r.Intn(8)
+		w.o.count("secret.derived." + []string{"upper-case", "first-half", "all-but-last", "one-more", "twice", "digest", "store-key", "second-half"}[k])
+		switch k {
+		case 0:
+			return strings.ToUpper(right) // (a secret without a letter is its own upper case: then it IS right, and named so)
+		case 1:
+			return right[:len(right)/2]
+		case 2:
+			return right[:len(right)-1]
+		case 3:
+			return right + "0"
+		case 4:
+			return right + right
+		case 5:
+			return hex.EncodeToString(d[:])
+		case 6:
+			return tpKeyName(role, right)
+		default:
+			return right[len(right)/2:]
+		}
 	default:
 		w.o.count("secret.empty")
 		return ""
 	}
+}
+
+// how a request presents a secret.  via = "api" (Discharge*/Abort*: the string as it is), "poll" (the handler takes
+// the LAST segment of the escaped path) or "uservisit" (the munger takes everything after its prefix)
+func (w *tpWorld) genSecret(a *tpAct, role, via string) {
+	r := w.r
+	s := w.genSecretString(role)
+	a.secret, a.tail = s, s
+	if via == "api" {
+		if s != "" && r.Chance(1, 12) { // strings no URL would carry
+			k := r.Intn(7)
+			w.o.count("secret.api-spelling." + []string{"segment-before", "slash-after", "newline-after", "space-before", "very-long", "non-ascii", "nul-after"}[k])
+			a.secret = []string{"zz/" + s, s + "/", s + "\n", " " + s, strings.Repeat(s, 64), "ſ" + s[1:], s + "\x00"}[k]
+		}
+		return
+	}
+	a.query = w.genQuery()
+	switch x := r.Intn(100); {
+	case x < 72:
+		w.o.count("spelling.plain")
+	case x < 82: // more path in front of the secret
+		pre := pick(r, []string{"zz/", "./", "../", "/", "poll/", "a/b/"})
+		a.tail = pre + s
+		if via == "uservisit" {
+			a.secret = a.tail
+		}
+		w.o.count("spelling.segments-before." + via)
+	case x < 88:
+		a.tail = s + "/"
+		a.secret = hitmiss(via == "poll", "", a.tail)
+		w.o.count("spelling.slash-after." + via)
+	case x < 94 && s != "": // one character percent-encoded: another string (both handlers read the ESCAPED path)
+		i := r.Intn(len(s))
+		a.tail = fmt.Sprintf("%s%%%02X%s", s[:i], s[i], s[i+1:])
+		a.secret = a.tail
+		w.o.count("spelling.percent-encoded")
+	case x < 97: // an encoded slash does not separate segments
+		a.tail = "zz%2F" + s
+		a.secret = a.tail
+		w.o.count("spelling.encoded-slash-before")
+	case via == "uservisit" && !w.conc: // a path outside the munger's prefix: no secret at all (and no store operation)
+		a.path = pick(r, []string{"/other/" + s, strings.ToUpper(w.userPfx) + s, w.userPfx[:len(w.userPfx)-1] + s, "/" + s})
+		if rest, ok := strings.CutPrefix(a.path, w.userPfx); ok {
+			a.path, a.tail, a.secret = "", rest, rest
+			w.o.count("spelling.plain")
+		} else {
+			a.secret = "!path:" + a.path
+			w.o.count("spelling.outside-prefix")
+		}
+	default:
+		w.o.count("spelling.plain")
+	}
+}
+
+func tpB64(b []byte) string {
+	j, _ := json.Marshal(b)
+	return string(j) // with the quotes
+}
+
+// the JSON body of an init request whose ticket member decodes to a.raw (encoding/json: member names match
+// case-insensitively, the LAST of duplicate members wins, []byte is a base64 string or an array of numbers,
+// only the first JSON value of the body is read)
+func (w *tpWorld) initBody(a *tpAct) {
+	r := w.r
+	b := tpB64(a.raw)
+	shape := "plain"
+	if r.Chance(2, 5) {
+		shape = pick(r, []string{"member-name-case", "other-members", "duplicate-member", "spaced-and-trailing", "number-array", "newline-in-base64"})
+	}
+	switch shape {
+	case "plain":
+		a.body, _ = json.Marshal(map[string][]byte{"ticket": a.raw})
+	case "member-name-case":
+		a.body = []byte(`{"` + pick(r, []string{"TICKET", "Ticket", "tickeT"}) + `":` + b + `}`)
+	case "other-members":
+		decoy := tpB64(pick(r, w.toks).ticket)
+		a.body = []byte(`{"comment":"x","n":[1,{"ticket":` + decoy + `}],"ticket":` + b + `,"z":{"ticket":` + decoy + `},"ticket2":` + decoy + `}`)
+	case "duplicate-member": // an earlier member with another ticket (a good one, garbage, null)
+		decoy := pick(r, []string{tpB64(pick(r, w.toks).ticket), tpB64(r.Bytes(1 + r.Intn(40))), "null", `""`})
+		a.body = []byte(`{"ticket":` + decoy + `,"ticket":` + b + `}`)
+	case "spaced-and-trailing":
+		a.body = []byte(" \n{ \"ticket\" :\t" + b + " }\n{\"ticket\":" + tpB64(pick(r, w.toks).ticket) + "} trailing")
+	case "number-array":
+		var sb strings.Builder
+		for i, x := range a.raw {
+			if i > 0 {
+				sb.WriteByte(',')
+			}
+			fmt.Fprintf(&sb, "%d", x)
+		}
+		a.body = []byte(`{"ticket":[` + sb.String() + `]}`)
+	case "newline-in-base64":
+		i := 1 + r.Intn(len(b)-2)
+		a.body = []byte(`{"ticket":` + b[:i] + `\r\n` + b[i:] + `}`)
+	}
+	w.o.count("body." + shape)
 }
 
 func (w *tpWorld) genAct(maxFlows int) *tpAct {
@@ -692,25 +1069,47 @@ func (w *tpWorld) genAct(maxFlows int) *tpAct {
 		case x < 82:
 			t := own()
 			a.tid, a.raw = 1, append([]byte{}, t.ticket...)
-			a.raw[r.Intn(len(a.raw))] ^= 1 << uint(r.Intn(8))
-			w.o.count("ticket.bitflip")
+			switch r.Intn(4) {
+			case 0: // one byte short / one byte long
+				if r.Bool() {
+					a.raw = a.raw[:len(a.raw)-1]
+				} else {
+					a.raw = append(a.raw, byte(r.Intn(256)))
+				}
+				w.o.count("ticket.length-off-by-one")
+			default:
+				a.raw[r.Intn(len(a.raw))] ^= 1 << uint(r.Intn(8))
+				w.o.count("ticket.bitflip")
+			}
 		case x < 90:
 			a.tid, a.raw = 2, w.foreign
 			w.o.count("ticket.foreign-key")
-		case x < 94:
-			a.tid, a.raw = 3, nil
-			if r.Bool() {
-				a.noMember = true
-				w.o.count("ticket.no-member")
-			} else {
-				w.o.count("ticket.empty")
-			}
+		case x < 94: // no ticket, or an empty one
+			a.tid = 3
+			a.body = []byte(pick(r, []string{`{}`, `{"comment": "no ticket here"}`, `{"Ticket2": "AAAA"}`, `null`, `{"ticket":null}`, `{"ticket":""}`, `{"ticket":[]}`,
+				`{"x":{"ticket":` + tpB64(own().ticket) + `}}`, `{"ticket":` + tpB64(own().ticket) + `,"ticket":null}`, `{"ticket":` + tpB64(own().ticket) + `,"TICKET":""}`}))
+			w.o.count("ticket.none-or-empty")
 		case x < 97:
 			a.tid, a.raw = 4, r.Bytes(1+r.Intn(80))
 			w.o.count("ticket.garbage")
-		default:
-			a.tid, a.badJSON = 5, true
+		default: // a body encoding/json refuses
+			a.tid = 5
+			t := own()
+			std := tpB64(t.ticket)
+			alt := strings.NewReplacer("+", "-", "/", "_").Replace(std)
+			unpadded := strings.ReplaceAll(std, "=", "")
+			bodies := []string{`{"ticket": 12`, `[]`, ``, `{"ticket":5}`, `"AQID"`, `{"ticket":"AQI"}`, `{"ticket":{"ticket":` + std + `}}`, `{"ticket":[` + std + `]}`}
+			if alt != std {
+				bodies = append(bodies, `{"ticket":`+alt+`}`) // the URL-safe alphabet
+			}
+			if unpadded != std {
+				bodies = append(bodies, `{"ticket":`+unpadded+`}`)
+			}
+			a.body = []byte(pick(r, bodies))
 			w.o.count("ticket.bad-json")
+		}
+		if a.raw != nil {
+			w.initBody(a)
 		}
 		x = r.Intn(100)
 		if eager {
@@ -722,9 +1121,12 @@ func (w *tpWorld) genAct(maxFlows int) *tpAct {
 		case x < 70 && w.planned < maxFlows:
 			a.mode = "user"
 		case x < 85:
-			a.mode, a.cs = "immediate", w.genCavs()
+			a.mode = "immediate"
+			w.setCavs(a)
 		case x < 95:
-			a.mode, a.status, a.msg = "refuse", pick(r, []int{400, 401, 403, 420, 503}), r.Intn(4)
+			// (statuses an error answer is not expected to carry included: the service passes the application's choice on)
+			a.mode, a.status, a.msg = "refuse", pick(r, []int{400, 401, 403, 420, 503, 200, 201, 202, 404, 500, 599}), r.Intn(4)
+			w.o.count(fmt.Sprintf("refuse.status=%d", a.status))
 		default:
 			a.mode = "none"
 		}
@@ -742,7 +1144,7 @@ func (w *tpWorld) genAct(maxFlows int) *tpAct {
 		} else {
 			w.o.count("addr.own-service." + a.kind)
 		}
-		if !w.conc && r.Chance(1, 3) { // the same request, realised by replacing the Key of the other tp.TP
+		if !w.conc && r.Chance(1, 3) { // the same request, realised by replacing Key and Location of the other tp.TP
 			a.viaSwap = true
 			w.o.count("addr.via-key-swap")
 		}
@@ -751,28 +1153,35 @@ func (w *tpWorld) genAct(maxFlows int) *tpAct {
 	switch x := r.Intn(100); {
 	case x < 38:
 		w.o.count("act.poll")
-		return address(&tpAct{kind: "poll", secret: w.genSecret("poll")})
+		a := &tpAct{kind: "poll"}
+		w.genSecret(a, "poll", "poll")
+		return address(a)
 	case x < 50:
 		w.o.count("act.uservisit")
-		a := &tpAct{kind: "uservisit", secret: w.genSecret("user")}
+		a := &tpAct{kind: "uservisit"}
+		w.genSecret(a, "user", "uservisit")
 		for a.secret == "" && w.conc { // "/user/" answers 404 before the store is consulted: no store operation to schedule
-			a.secret = w.genSecret("user")
+			*a = tpAct{kind: "uservisit"}
+			w.genSecret(a, "user", "uservisit")
 		}
 		return address(a)
 	case x < 80:
 		role := pick(r, []string{"poll", "user"})
 		w.o.count("act.approve." + role)
-		a := &tpAct{kind: "approve", role: role, secret: w.genSecret(role), cs: w.genCavs()}
+		a := &tpAct{kind: "approve", role: role}
+		w.genSecret(a, role, "api")
 		for a.secret == "" { // Discharge*/Abort* treat "" as "the other secret was given"
-			a.secret = w.genSecret(role)
+			w.genSecret(a, role, "api")
 		}
+		w.setCavs(a)
 		return address(a)
 	default:
 		role := pick(r, []string{"poll", "user"})
 		w.o.count("act.abort." + role)
-		a := &tpAct{kind: "abort", role: role, secret: w.genSecret(role), msg: r.Intn(4)}
+		a := &tpAct{kind: "abort", role: role, msg: r.Intn(4)}
+		w.genSecret(a, role, "api")
 		for a.secret == "" {
-			a.secret = w.genSecret(role)
+			w.genSecret(a, role, "api")
 		}
 		return address(a)
 	}
@@ -800,14 +1209,31 @@ func tpSize(r *Rng) int {
 
 // ---- sequential histories -------------------------------------------------------------------
 
-func tpRunEpisode(r *Rng, o *Out) {
+// episode shape: 3-20 actions over 1-4 flows; the thorough tier also runs long histories over up to 8 flows
+func tpShape(r *Rng, o *Out, tier string) (maxFlows, n int) {
+	maxFlows, n = 1+r.Intn(4), 3+r.Intn(18)
+	if tier == "thorough" && r.Chance(1, 10) {
+		maxFlows, n = 1+r.Intn(8), 20+r.Intn(41)
+		o.count("shape.long")
+	}
+	return
+}
+
+func tpRunEpisode(r *Rng, o *Out, tier string) {
 	size := tpSize(r)
 	w := newTPWorld(r, o, size, 1+r.Intn(3))
-	maxFlows := 1 + r.Intn(4)
-	n := 3 + r.Intn(18)
-	var acts, outs []string
+	maxFlows, n := tpShape(r, o, tier)
+	var todo []*tpAct
 	for i := 0; i < n; i++ {
-		a := w.genAct(maxFlows)
+		todo = append(todo, nil) // generated when its turn comes: the generator looks at the flows that exist
+	}
+	sweep := r.Chance(1, 3) // at the end, every flow is polled at its own service: whatever was decided is observed
+	var acts, outs []string
+	for i := 0; i < len(todo); i++ {
+		a := todo[i]
+		if a == nil {
+			a = w.genAct(maxFlows)
+		}
 		th := &tpThread{id: i, act: a}
 		out := guard(func() string { return w.runAct(th) })
 		acts = append(acts, w.sxAct(a))
@@ -816,6 +1242,12 @@ func tpRunEpisode(r *Rng, o *Out) {
 		for _, e := range w.syncEvictions(a.kind == "init") {
 			acts = append(acts, "(evict "+e+")")
 			outs = append(outs, "-")
+		}
+		if sweep && i == n-1 {
+			for _, f := range w.flows {
+				todo = append(todo, &tpAct{kind: "poll", svc: f.svc, secret: f.ps, tail: f.ps})
+			}
+			o.count("run.final-sweep")
 		}
 	}
 	outs = append(outs, w.live())
@@ -879,13 +1311,15 @@ func (w *tpWorld) active() []*tpThread {
 	return act
 }
 
-func tpSchedEpisode(r *Rng, o *Out) {
+func tpSchedEpisode(r *Rng, o *Out, tier string) {
 	size := tpSize(r)
 	w := newTPWorld(r, o, size, 1+r.Intn(3))
 	w.conc = true
-	maxFlows := 1 + r.Intn(4)
-	n := 3 + r.Intn(18)
+	maxFlows, n := tpShape(r, o, tier)
 	conc := 2 + r.Intn(3)
+	if tier == "thorough" && r.Chance(1, 10) {
+		conc = 5 + r.Intn(3)
+	}
 	spawned := 0
 	maxActive := 0
 	for spawned < n || len(w.active()) > 0 {
@@ -939,15 +1373,339 @@ func tpSchedEpisode(r *Rng, o *Out) {
 	o.emit("(tp.sched "+strings.Join(w.items, " ")+")", strings.Join(outs, " "))
 }
 
+// ---- end to end: the real client against the real services ----------------------------------
+//
+// tp.Client.FetchDischargeTokens on a header of one or two pool macaroons; its http.Client's transport hands every
+// request to the handlers of the service the URL names.  Each ticket has a script (what the application answers to
+// the init request, and when and what it decides: inside the user-URL callback, or right before the client's k-th
+// poll).  The line is (const EXPECTED) => OBSERVED: EXPECTED is what the scripts entitle the client to — the
+// discharges (which ticket, which caveats), the errors, which macaroons verify with what came back.
+
+type tpE2EScript struct {
+	tok         *tpTok
+	mode        string // immediate poll user refuse none
+	cs          []int
+	cavs        []macaroon.Caveat
+	approve     bool // poll/user: the decision
+	after       int  // the decision falls right before the client's after-th poll of this flow
+	atVisit     bool // user: decided inside the user-URL callback
+	visit       bool // user: the callback opens the user page
+	cbErr       bool // user: the callback fails
+	status, msg int
+	us, ps      string
+	polls       int
+	decided     bool
+}
+
+type tpE2E struct {
+	w       *tpWorld
+	mu      sync.Mutex
+	scripts []*tpE2EScript
+	notes   []string
+}
+
+func (e *tpE2E) note(f string, a ...any) { e.notes = append(e.notes, "!"+fmt.Sprintf(f, a...)) }
+
+func (e *tpE2E) decide(sc *tpE2EScript) {
+	sc.decided = true
+	svc := e.w.svcs[sc.tok.svc]
+	ctx := context.Background()
+	var err error
+	switch {
+	case sc.approve && sc.mode == "poll":
+		err = svc.DischargePoll(ctx, sc.ps, sc.cavs...)
+	case sc.approve:
+		err = svc.DischargeUserInteractive(ctx, sc.us, sc.cavs...)
+	case sc.mode == "poll":
+		err = svc.AbortPoll(ctx, sc.ps, tpMsg(sc.msg))
+	default:
+		err = svc.AbortUserInteractive(ctx, sc.us, tpMsg(sc.msg))
+	}
+	if err != nil {
+		e.note("decision-failed")
+	}
+}
+
+func (e *tpE2E) serve(v int, a *tpAct, req *http.Request) (*http.Response, *tpThread) {
+	th := &tpThread{act: a}
+	rec := httptest.NewRecorder()
+	e.w.mux(v, e.w.svcs[v], a.kind, rec, req.WithContext(context.WithValue(req.Context(), tpThreadKey{}, th)))
+	resp := rec.Result()
+	resp.Request = req
+	return resp, th
+}
+
+func (e *tpE2E) RoundTrip(req *http.Request) (*http.Response, error) {
+	e.mu.Lock()
+	defer e.mu.Unlock()
+	w := e.w
+	u := req.URL.String()
+	for v := range w.svcs {
+		if req.Method == "POST" && u == tpInitURL(w.locs[v]) {
+			var jr struct {
+				Ticket []byte `json:"ticket"`
+			}
+			body, _ := io.ReadAll(req.Body)
+			json.Unmarshal(body, &jr)
+			req.Body = io.NopCloser(bytes.NewReader(body))
+			for _, sc := range e.scripts {
+				if bytes.Equal(sc.tok.ticket, jr.Ticket) && sc.tok.svc == v {
+					a := &tpAct{kind: "init", svc: v, good: true, tid: sc.tok.id, mode: sc.mode, cs: sc.cs, cavs: sc.cavs, status: sc.status, msg: sc.msg}
+					resp, th := e.serve(v, a, req)
+					if th.note != "" {
+						e.note("init%s", th.note)
+					}
+					if sc.mode == "poll" || sc.mode == "user" {
+						f := w.flows[len(w.flows)-1]
+						sc.us, sc.ps = f.us, f.ps
+					}
+					return resp, nil
+				}
+			}
+			e.note("init-with-unknown-ticket")
+			return nil, errors.New("unrouted")
+		}
+		if ps, ok := strings.CutPrefix(u, w.pollBase(v)); ok && req.Method == "GET" {
+			for _, sc := range e.scripts {
+				if sc.ps == ps && sc.ps != "" && sc.tok.svc == v {
+					sc.polls++
+					if sc.polls > 20 {
+						e.note("polling-forever")
+						return nil, errors.New("polling forever")
+					}
+					if !sc.decided && !sc.atVisit && sc.polls == sc.after {
+						e.decide(sc)
+					}
+					resp, _ := e.serve(v, &tpAct{kind: "poll", svc: v, secret: ps}, req)
+					return resp, nil
+				}
+			}
+			e.note("poll-of-unknown-secret")
+			return nil, errors.New("unrouted")
+		}
+	}
+	e.note("unrouted-request")
+	return nil, errors.New("unrouted")
+}
+
+func (e *tpE2E) userURL(ctx context.Context, u string) error {
+	e.mu.Lock()
+	defer e.mu.Unlock()
+	w := e.w
+	for _, sc := range e.scripts {
+		if sc.us != "" && u == w.userPfx+sc.us {
+			if sc.visit {
+				req := httptest.NewRequest("GET", w.origin(sc.tok.svc)+u+"?return_to=https%3A%2F%2Fclient.example%2Fdone", nil)
+				resp, th := e.serve(sc.tok.svc, &tpAct{kind: "uservisit", svc: sc.tok.svc, secret: sc.us}, req)
+				if resp.StatusCode != 200 || !th.invoked || th.note != "" {
+					e.note("user-page:%d%s", resp.StatusCode, th.note)
+				}
+			}
+			if sc.atVisit {
+				e.decide(sc)
+			}
+			if sc.cbErr {
+				return errors.New("no browser")
+			}
+			return nil
+		}
+	}
+	e.note("callback-with-unknown-url")
+	return errors.New("unknown url")
+}
+
+func tpDedup(cs []int) []int {
+	var out []int
+	for _, c := range cs {
+		seen := false
+		for _, d := range out {
+			seen = seen || c == d
+		}
+		if !seen {
+			out = append(out, c)
+		}
+	}
+	return out
+}
+
+func tpErrLeaves(err error) []error {
+	if err == nil {
+		return nil
+	}
+	if j, ok := err.(interface{ Unwrap() []error }); ok {
+		var out []error
+		for _, e := range j.Unwrap() {
+			out = append(out, tpErrLeaves(e)...)
+		}
+		return out
+	}
+	return []error{err}
+}
+
+func tpE2EEpisode(r *Rng, o *Out) {
+	w := newTPWorld(r, o, 100, 1+r.Intn(2))
+	for w.locs[0] == w.locs[1] { // the transport tells the services apart by their URLs
+		w = newTPWorld(r, o, 100, 1+r.Intn(2))
+	}
+	e := &tpE2E{w: w}
+	// the header: one macaroon, or two
+	var macs []*tpTok // one entry per macaroon
+	first := pick(r, w.toks)
+	macs = append(macs, first)
+	if second := pick(r, w.toks); second.m != first.m && r.Bool() {
+		macs = append(macs, second)
+	}
+	o.count(fmt.Sprintf("e2e.macaroons=%d", len(macs)))
+	var hdr []string
+	for _, t := range macs {
+		s, err := t.m.String()
+		if err != nil {
+			panic(err)
+		}
+		hdr = append(hdr, s)
+	}
+	header := strings.Join(hdr, ",")
+	scheme := r.Bool()
+	if scheme {
+		header = "FlyV1 " + header
+	}
+	withCallback := r.Chance(4, 5)
+	withJar := r.Chance(1, 3) // with a cookie jar and a callback the client takes the tickets one after the other
+	o.count("e2e.callback=" + fmt.Sprint(withCallback))
+	o.count("e2e.jar=" + fmt.Sprint(withJar))
+	var wantDis, wantErr, wantVerify []string
+	for _, mt := range macs {
+		all := true
+		for _, t := range w.toks {
+			if t.m != mt.m {
+				continue
+			}
+			sc := &tpE2EScript{tok: t, approve: r.Chance(3, 4), after: 1 + r.Intn(3), atVisit: r.Bool(), visit: r.Chance(2, 3), cbErr: r.Chance(1, 10), status: pick(r, []int{400, 401, 403, 503, 200, 202}), msg: r.Intn(4)}
+			sc.mode = pick(r, []string{"immediate", "immediate", "poll", "poll", "poll", "user", "user", "user", "refuse", "none"})
+			sc.atVisit = sc.atVisit && sc.mode == "user"
+			for len(sc.cs) == 0 || macaroonRefused(sc.cs) {
+				a := &tpAct{}
+				w.setCavs(a)
+				sc.cs, sc.cavs = a.cs, a.cavs
+				if len(sc.cs) == 0 {
+					break
+				}
+			}
+			e.scripts = append(e.scripts, sc)
+			ok, errTok := false, "err:other"
+			switch sc.mode {
+			case "immediate":
+				ok = true
+			case "poll", "user":
+				decision := hitmiss(sc.approve, "approve", "abort")
+				switch {
+				case sc.mode == "user" && !withCallback:
+					decision = "no-callback"
+				case sc.mode == "user" && sc.cbErr:
+					decision = "callback-fails"
+				case sc.approve:
+					ok = true
+				case sc.msg > 0:
+					errTok = fmt.Sprintf("err:200:m%d", sc.msg)
+				}
+				if sc.mode == "user" {
+					decision += hitmiss(sc.atVisit, ".at-visit", ".later")
+				}
+				o.count("e2e." + sc.mode + "." + decision)
+			case "refuse":
+				if sc.msg > 0 {
+					errTok = fmt.Sprintf("err:%d:m%d", sc.status, sc.msg)
+				}
+			}
+			o.count("e2e.mode." + sc.mode)
+			if ok {
+				wantDis = append(wantDis, fmt.Sprintf("discharge:t%d:%s", t.id, strings.Join(strings.Fields(strings.ReplaceAll(tpNats(tpDedup(sc.cs)), " ", " c")), ",")))
+			} else {
+				wantErr = append(wantErr, errTok)
+				all = false
+			}
+		}
+		wantVerify = append(wantVerify, fmt.Sprintf("verify:%d:%s", mt.m.Nonce.KID[0], hitmiss(all, "ok", "fail")))
+	}
+	opts := []tp.ClientOption{tp.WithHTTP(&http.Client{Transport: e}), tp.WithPollingBackoff(func(time.Duration) time.Duration { return time.Microsecond })}
+	if withJar {
+		jar, _ := cookiejar.New(nil)
+		opts[0] = tp.WithHTTP(&http.Client{Transport: e, Jar: jar})
+	}
+	if withCallback {
+		opts = append(opts, tp.WithUserURLCallback(e.userURL))
+	}
+	ctx, cancel := context.WithTimeout(context.Background(), 20*time.Second)
+	defer cancel()
+	var res string
+	var err error
+	if p := guard(func() string { res, err = tp.NewClient(tpFirst, opts...).FetchDischargeTokens(ctx, header); return "" }); p != "" {
+		e.note("%s", p)
+	}
+	var gotDis, gotErr, gotVerify []string
+	if _, had := macaroon.StripAuthorizationScheme(res); had != scheme {
+		e.note("scheme")
+	}
+	raws, perr := macaroon.Parse(res)
+	if perr != nil {
+		e.note("unparsable-result")
+	}
+	var dis [][]byte
+	for _, raw := range raws {
+		if m, err := macaroon.Decode(raw); err == nil && m.Location != tpFirst {
+			dis = append(dis, raw)
+			gotDis = append(gotDis, w.dischargeTokRaw(raw))
+		}
+	}
+	for _, l := range tpErrLeaves(err) {
+		var te *tp.Error
+		tok := "err:other"
+		if errors.As(l, &te) {
+			for k := 1; k < len(tpMsgs); k++ {
+				if te.Msg == tpMsgs[k] {
+					tok = fmt.Sprintf("err:%d:m%d", te.StatusCode, k)
+				}
+			}
+		}
+		gotErr = append(gotErr, tok)
+	}
+	for _, mt := range macs {
+		_, verr := mt.m.Verify(mt.key, dis, nil)
+		gotVerify = append(gotVerify, fmt.Sprintf("verify:%d:%s", mt.m.Nonce.KID[0], hitmiss(verr == nil, "ok", "fail")))
+	}
+	line := func(d, er, v []string) string {
+		sort.Strings(d)
+		sort.Strings(er)
+		return "e2e;" + strings.Join(d, ";") + ";" + strings.Join(er, ";") + ";" + strings.Join(v, ";")
+	}
+	for _, sc := range e.scripts {
+		o.count(fmt.Sprintf("e2e.polls-of-a-flow=%d", sc.polls))
+	}
+	o.count("e2e.episodes")
+	o.emit("(const "+line(wantDis, wantErr, wantVerify)+")", line(gotDis, gotErr, gotVerify)+strings.Join(e.notes, ""))
+}
+
+func macaroonRefused(cs []int) bool {
+	for _, c := range cs {
+		if c == 0 {
+			return true
+		}
+	}
+	return false
+}
+
 func famTP(r *Rng, o *Out, tier string) {
 	n := 1500
 	if tier == "thorough" {
 		n = 15000
 	}
 	for i := 0; i < n; i++ {
-		tpRunEpisode(r, o)
+		tpRunEpisode(r, o, tier)
 	}
 	for i := 0; i < n; i++ {
-		tpSchedEpisode(r, o)
+		tpSchedEpisode(r, o, tier)
+	}
+	for i := 0; i < n/3; i++ {
+		tpE2EEpisode(r, o)
 	}
 }
